@@ -6,7 +6,7 @@ From PM Require Import Model.Data Model.Mark Model.Tree Model.Resolve Model.Step
   Proofs.DataProofs Proofs.MarkProofs
   Proofs.ReplaceValid Proofs.SliceSides Proofs.TokenBasics Proofs.PathTokens Proofs.ReplaceTokens Proofs.SliceShape
   Proofs.StepFaithful Proofs.SliceTokens Proofs.SliceCut Proofs.TokenLaws Proofs.StepAlgebra Proofs.StepTokens
-  Proofs.TokenInj Proofs.ReplaceCanon Proofs.MarkSteps Proofs.MarkPointwise Proofs.MarkMerge.
+  Proofs.TokenInj Proofs.ReplaceCanon Proofs.NodeSteps Proofs.MarkSteps Proofs.MarkPointwise Proofs.MarkMerge Proofs.AttrUndo Proofs.NodeStepCommute.
 Import ListNotations.
 Local Open Scope nat_scope.
 
@@ -70,6 +70,327 @@ Proof.
     assert (E2 : nth_error (remarkedT s ua rty f1 t1 (remarkedT s ub rty f2 t2 T)) i = None).
     { apply nth_error_None. rewrite !remarkedT_length; try assumption. rewrite remarkedT_length; assumption. }
     rewrite E1, E2. reflexivity.
+Qed.
+
+(* ------------------------------------------------------------------ a mark step in front of a replace step
+   The mark step's range ends before the replaced range starts: the replace step changes nothing the mark step reads
+   (the tokens of its range and the chain of nodes open around them lie entirely in front), and the mark step changes no
+   sizes, so both orders give the same token sequence and neither step moves under rebasing. *)
+Notation OpenS sl := (OpenOK s (sl_content sl) (sl_open_start sl) (sl_open_end sl)).
+
+Lemma replace_step_root from to sl structure doc d' :
+  apply s (SReplace from to sl structure) doc = ROk d' -> node_ty s d' = node_ty s doc.
+Proof.
+  intros H. apply apply_replace_inv in H. unfold node_replace in H.
+  destruct (resolve s doc from) as [rf|] eqn:Ef; [|discriminate]. cbn [bind] in H.
+  destruct (resolve s doc to) as [rt|] eqn:Et; [|discriminate]. cbn [bind] in H.
+  unfold replace_rp in H. destruct (rp_depth rf <? _); [discriminate|]. destruct (negb _); [discriminate|].
+  destruct (rp_pos _ <? rp_pos _); [discriminate|]. destruct (_ && _); [discriminate|].
+  destruct (replace_outer_copy s _ _ _ _ _ _ H) as (n & X & En & ->).
+  destruct (resolve_spec s _ _ _ Ef) as (_ & _ & _ & (i & o & rest & Hh) & _).
+  unfold rp_node, path_at in En. rewrite Hh in En. cbn in En. inversion En; subst n.
+  apply node_copy_markup.
+Qed.
+
+Lemma remarkedT_app_l u rty f2 t2 P R : f2 <= t2 -> t2 <= length P ->
+  remarkedT s u rty f2 t2 (P ++ R) = remarkedT s u rty f2 t2 P ++ R.
+Proof.
+  intros H1 H2. unfold remarkedT, ctxT.
+  rewrite (firstn_app f2 P R). replace (f2 - length P) with 0 by lia. cbn [firstn]. rewrite app_nil_r.
+  rewrite (seg_in_first P R f2 t2 H2).
+  rewrite (skipn_app t2 P R). replace (t2 - length P) with 0 by lia. cbn [skipn].
+  rewrite <- !app_assoc. reflexivity.
+Qed.
+
+Theorem mark_step_before_replace_commute f t sl structure b f2 t2 doc da db :
+  V doc -> OpenS sl -> f <= t -> mark_step_range b = Some (f2, t2) -> f2 <= t2 -> t2 < f ->
+  apply s (SReplace f t sl structure) doc = ROk da ->
+  apply s b doc = ROk db ->
+  step_map b (get_map s (SReplace f t sl structure)) = Some b /\
+  step_map (SReplace f t sl structure) (get_map s b) = Some (SReplace f t sl false) /\
+  forall dab dba,
+    V db -> apply s b da = ROk dab -> apply s (SReplace f t sl false) db = ROk dba ->
+    DT dab = DT dba.
+Proof.
+  intros Hd Ho Hft Rb H2 Hsep Ha Hb.
+  pose proof (OpenOK_Shape s _ _ _ Ho) as Hs.
+  assert (Mb : get_map s b = empty_map) by (destruct b; try discriminate; reflexivity).
+  split; [|split].
+  - destruct b; try discriminate; cbn [mark_step_range] in Rb; inversion Rb; subst;
+      cbn [step_map get_map]; rewrite !map_result_single_before by lia;
+      unfold deleted; cbn [mr_del mr_pos Z.land Z.ltb Z.compare andb orb];
+      (destruct (Z.of_nat t2 <? Z.of_nat f2)%Z eqn:E; [apply Z.ltb_lt in E; lia|]); rewrite !Nat2Z.id; reflexivity.
+  - rewrite Mb. cbn [step_map]. unfold map_result, empty_map. cbn [ranges inverted map_go mr_pos mr_del].
+    unfold deleted. cbn [mr_del Z.land Z.ltb Z.compare andb]. rewrite !Z.add_0_r.
+    assert (E : (Z.max (Z.of_nat f) (Z.of_nat t)) = Z.of_nat t) by lia. rewrite E, !Nat2Z.id. reflexivity.
+  - intros dab dba Hdb Hab Hba.
+    destruct (replace_step_splice s _ _ _ _ _ _ Hd Hs Ha) as (Hf & Ht & Ea).
+    pose proof (apply_replace_valid s _ _ _ _ _ _ Hd Ho Ha) as Hda.
+    pose proof (replace_step_root _ _ _ _ _ _ Ha) as Tya.
+    pose proof (mark_step_normalised s _ _ _ _ _ Hd H2 Rb Hb) as Eb.
+    pose proof (mark_step_normalised s _ _ _ _ _ Hda H2 Rb Hab) as Eab. rewrite Tya in Eab.
+    destruct (replace_step_splice s _ _ _ _ _ _ Hdb Hs Hba) as (_ & _ & Eba).
+    set (T := DT doc) in *. set (rty := node_ty s doc) in *. set (u := step_updN s b) in *. set (I := IT s sl) in *.
+    set (P := firstn f T). assert (LP : length P = f) by (unfold P; rewrite firstn_length; lia).
+    assert (ET : T = P ++ skipn f T) by (unfold P; symmetry; apply firstn_skipn).
+    assert (EbT : DT db = remarkedT s u rty f2 t2 P ++ skipn f T).
+    { rewrite Eb. rewrite ET at 1. apply remarkedT_app_l; lia. }
+    assert (LRP : length (remarkedT s u rty f2 t2 P) = f) by (rewrite remarkedT_length; lia).
+    rewrite Eab, Ea. fold P. rewrite remarkedT_app_l by lia.
+    rewrite Eba, EbT. rewrite firstn_app, LRP, Nat.sub_diag. cbn [firstn]. rewrite app_nil_r.
+    rewrite <- LRP at 1. rewrite firstn_all.
+    rewrite skipn_app, LRP. rewrite (skipn_all2 (remarkedT s u rty f2 t2 P)) by lia. cbn [app].
+    rewrite skipn_skipn_add. replace (f + (t - f)) with t by lia. reflexivity.
+Qed.
+
+(* ------------------------------------------------------------------ a mark step behind a replace step
+   Here the mark step reads something the replace step may change: the chain of nodes that are open at the end of the
+   replaced range (it decides which node encloses the tokens behind it).  When that chain is the same before and after the
+   replace step - true of every edit that stays inside one parent node; false when the step joins or retypes nodes, the
+   recorded finding C17-join-vs-mark-context - the two steps commute after rebasing. *)
+Definition remarkedTc (u : upd) (c : ctx) (a b : nat) (R : list tok) : list tok :=
+  firstn a R ++ tmap s u (ctx_after (firstn a R) c) (seg R a b) ++ skipn b R.
+
+Lemma remarkedT_app_r u rty a b Q R : a <= b ->
+  remarkedT s u rty (length Q + a) (length Q + b) (Q ++ R) = Q ++ remarkedTc u (ctx_after Q ([], rty)) a b R.
+Proof.
+  intros Hab. unfold remarkedT, remarkedTc, ctxT.
+  rewrite (firstn_app (length Q + a) Q R). rewrite firstn_all2 by lia. replace (length Q + a - length Q) with a by lia.
+  rewrite ctx_after_app.
+  assert (Es : seg (Q ++ R) (length Q + a) (length Q + b) = seg R a b).
+  { rewrite seg_app. rewrite (seg_beyond Q) by lia. cbn [app]. f_equal; lia. }
+  rewrite Es. rewrite (skipn_app (length Q + b) Q R). rewrite skipn_all2 by lia. cbn [app].
+  replace (length Q + b - length Q) with b by lia. rewrite <- !app_assoc. reflexivity.
+Qed.
+
+Theorem mark_step_after_replace_commute f t sl structure b f2 t2 doc da db :
+  V doc -> OpenS sl -> f <= t -> mark_step_range b = Some (f2, t2) -> t < f2 -> f2 <= t2 ->
+  ctx_after (firstn f (DT doc) ++ IT s sl) ([], node_ty s doc) = ctx_after (firstn t (DT doc)) ([], node_ty s doc) ->
+  apply s (SReplace f t sl structure) doc = ROk da ->
+  apply s b doc = ROk db ->
+  let delta := (Z.of_nat (length (IT s sl)) - (Z.of_nat t - Z.of_nat f))%Z in
+  let f2' := Z.to_nat (Z.of_nat f2 + delta) in let t2' := Z.to_nat (Z.of_nat t2 + delta) in
+  step_map (SReplace f t sl structure) (get_map s b) = Some (SReplace f t sl false) /\
+  forall b' dab dba,
+    mark_step_range b' = Some (f2', t2') -> step_updN s b' = step_updN s b ->
+    V db -> apply s b' da = ROk dab -> apply s (SReplace f t sl false) db = ROk dba ->
+    DT dab = DT dba.
+Proof.
+  intros Hd Ho Hft Rb Hsep H2 Hctx Ha Hb delta f2' t2'.
+  pose proof (OpenOK_Shape s _ _ _ Ho) as Hs.
+  assert (Mb : get_map s b = empty_map) by (destruct b; try discriminate; reflexivity).
+  split.
+  - rewrite Mb. cbn [step_map]. unfold map_result, empty_map. cbn [ranges inverted map_go mr_pos mr_del].
+    unfold deleted. cbn [mr_del Z.land Z.ltb Z.compare andb]. rewrite !Z.add_0_r.
+    assert (E : (Z.max (Z.of_nat f) (Z.of_nat t)) = Z.of_nat t) by lia. rewrite E, !Nat2Z.id. reflexivity.
+  - intros b' dab dba Rb' Hu Hdb Hab Hba.
+    destruct (replace_step_splice s _ _ _ _ _ _ Hd Hs Ha) as (Hf & Ht & Ea).
+    pose proof (apply_replace_valid s _ _ _ _ _ _ Hd Ho Ha) as Hda.
+    pose proof (replace_step_root _ _ _ _ _ _ Ha) as Tya.
+    destruct (mark_step_root s _ _ _ _ _ Rb Hb) as (_ & Lb).
+    pose proof (mark_step_normalised s _ _ _ _ _ Hd H2 Rb Hb) as Eb.
+    assert (H2' : f2' <= t2') by (unfold f2', t2', delta; lia).
+    pose proof (mark_step_normalised s _ _ _ _ _ Hda H2' Rb' Hab) as Eab. rewrite Tya, Hu in Eab.
+    destruct (replace_step_splice s _ _ _ _ _ _ Hdb Hs Hba) as (_ & _ & Eba).
+    set (T := DT doc) in *. set (rty := node_ty s doc) in *. set (u := step_updN s b) in *. set (I := IT s sl) in *.
+    set (P := firstn f T). set (Q := firstn t T). set (S0 := skipn t T).
+    assert (LP : length P = f) by (unfold P; rewrite firstn_length; lia).
+    assert (LQ : length Q = t) by (unfold Q; rewrite firstn_length; lia).
+    assert (ET : T = Q ++ S0) by (unfold Q, S0; symmetry; apply firstn_skipn).
+    (* b then a' *)
+    assert (EbT : DT db = Q ++ remarkedTc u (ctx_after Q ([], rty)) (f2 - t) (t2 - t) S0).
+    { rewrite Eb. rewrite ET at 1. replace f2 with (length Q + (f2 - t)) at 1 by lia. replace t2 with (length Q + (t2 - t)) at 1 by lia.
+      apply remarkedT_app_r. lia. }
+    assert (Efirst : firstn f (DT db) = P).
+    { rewrite EbT. rewrite firstn_app. replace (f - length Q) with 0 by lia. cbn [firstn]. rewrite app_nil_r.
+      unfold Q, P. rewrite firstn_firstn. f_equal. lia. }
+    assert (Eskip : skipn t (DT db) = remarkedTc u (ctx_after Q ([], rty)) (f2 - t) (t2 - t) S0).
+    { rewrite EbT. rewrite skipn_app. rewrite skipn_all2 by lia. cbn [app]. replace (t - length Q) with 0 by lia. reflexivity. }
+    rewrite Eba, Efirst, Eskip.
+    (* a then b' *)
+    rewrite Eab, Ea. fold P I S0. replace (P ++ I ++ S0) with ((P ++ I) ++ S0) by (rewrite <- app_assoc; reflexivity).
+    assert (LPI : length (P ++ I) = f + length I) by (rewrite app_length; lia).
+    replace f2' with (length (P ++ I) + (f2 - t)) by (unfold f2', delta; fold I; lia).
+    replace t2' with (length (P ++ I) + (t2 - t)) by (unfold t2', delta; fold I; lia).
+    rewrite remarkedT_app_r by lia. rewrite <- app_assoc. unfold P, I, rty, T in *. rewrite Hctx. reflexivity.
+Qed.
+
+Definition move_mark_step (st : step) (f t : nat) : step :=
+  match st with
+  | SAddMark _ _ m => SAddMark f t m
+  | SRemoveMark _ _ m => SRemoveMark f t m
+  | _ => st
+  end.
+
+Lemma mark_step_map_after f t sl structure b f2 t2 :
+  Shape s (sl_content sl) (sl_open_start sl) (sl_open_end sl) -> f <= t ->
+  mark_step_range b = Some (f2, t2) -> t < f2 -> f2 <= t2 ->
+  let delta := (Z.of_nat (length (IT s sl)) - (Z.of_nat t - Z.of_nat f))%Z in
+  step_map b (get_map s (SReplace f t sl structure)) =
+    Some (move_mark_step b (Z.to_nat (Z.of_nat f2 + delta)) (Z.to_nat (Z.of_nat t2 + delta))).
+Proof.
+  intros Hs Hft Rb Hsep H2 delta. pose proof (IT_length s sl Hs) as Hl.
+  destruct b; try discriminate; cbn [mark_step_range] in Rb; inversion Rb; subst;
+    cbn [step_map get_map move_mark_step]; rewrite !map_result_single_after by lia;
+    unfold deleted; cbn [mr_del mr_pos Z.land Z.ltb Z.compare andb orb];
+    match goal with |- context [(?x <? ?y)%Z] => destruct (x <? y)%Z eqn:E; [apply Z.ltb_lt in E; lia|] end;
+    unfold delta; rewrite Hl; f_equal; f_equal; lia.
+Qed.
+
+(* ------------------------------------------------------------------ a node-level step and a mark step
+   An attribute / node-mark step at a position outside the mark step's range: the node step rewrites one token and keeps its
+   node type (so no token's enclosing chain changes), the mark step re-marks the tokens of its range only - both orders give
+   the same token sequence; both maps are empty, so neither step moves. *)
+
+Definition same_ctx_step (t t' : tok) : Prop := forall c, step_ctx c t = step_ctx c t'.
+
+Lemma ctx_after_same : forall l l' c, Forall2 same_ctx_step l l' -> ctx_after l c = ctx_after l' c.
+Proof.
+  induction l as [|t l IH]; intros l' c H; inversion H; subst; [reflexivity|].
+  unfold ctx_after in *. cbn [fold_left]. rewrite (H2 c). apply IH. assumption.
+Qed.
+
+Lemma Forall2_firstn {A B} (R : A -> B -> Prop) : forall n l l', Forall2 R l l' -> Forall2 R (firstn n l) (firstn n l').
+Proof.
+  induction n as [|n IH]; intros l l' H; [constructor|]. inversion H; subst; cbn [firstn]; constructor; auto.
+Qed.
+
+Lemma Forall2_refl_same l : Forall2 same_ctx_step l l.
+Proof. induction l; constructor; [intros c; reflexivity|assumption]. Qed.
+
+Lemma node_step_root st pos doc d' :
+  is_node_step st = Some pos -> apply s st doc = ROk d' -> node_ty s d' = node_ty s doc.
+Proof.
+  intros Hst H.
+  assert (G : forall upd, apply s st doc = node_step s doc pos upd tt -> node_ty s d' = node_ty s doc).
+  { intros upd Eap. rewrite Eap in H. unfold node_step, lift in H.
+    destruct (node_at s (S (node_size s doc)) doc pos) as [[n|]|]; try discriminate.
+    destruct (upd n) as [updated|]; [|discriminate].
+    apply (replace_step_root pos (pos + 1) (SL [updated] 0 (if is_leaf_ty s (node_ty s n) then 0 else 1)) false doc d').
+    cbn [apply]. unfold lift. exact H. }
+  destruct st; try discriminate; cbn [is_node_step] in Hst; inversion Hst; subst; eapply G; reflexivity.
+Qed.
+
+Theorem node_step_and_mark_step_commute a pos b f2 t2 doc da db dab dba :
+  V doc -> V da -> V db ->
+  is_node_step a = Some pos -> mark_step_range b = Some (f2, t2) -> f2 <= t2 -> (pos < f2 \/ t2 <= pos) ->
+  apply s a doc = ROk da -> apply s b doc = ROk db ->
+  apply s b da = ROk dab -> apply s a db = ROk dba ->
+  get_map s a = empty_map /\ get_map s b = empty_map /\ DT dab = DT dba.
+Proof.
+  intros Hd Hda Hdb Hst Rb H2 Hout Aa Ab Aab Aba.
+  split; [destruct a; try discriminate; reflexivity|]. split; [destruct b; try discriminate; reflexivity|].
+  destruct (node_step_splice s a pos doc da Hd Hst Aa) as (ty & at_ & m & cs & a' & m' & En & Eu & Hn & Ea).
+  destruct (node_step_splice s a pos db dba Hdb Hst Aba) as (ty2 & at2 & m2 & cs2 & a2' & m2' & En2 & Eu2 & Hn2 & Eba).
+  pose proof (node_step_root a pos doc da Hst Aa) as Tya.
+  destruct (mark_step_root s _ _ _ _ _ Rb Ab) as (_ & Lb).
+  pose proof (mark_step_normalised s _ _ _ _ _ Hd H2 Rb Ab) as Eb.
+  pose proof (mark_step_normalised s _ _ _ _ _ Hda H2 Rb Aab) as Eab. rewrite Tya in Eab.
+  set (T := DT doc) in *. set (rty := node_ty s doc) in *. set (u := step_updN s b) in *.
+  set (y := tnorm (head_tok s ty at_ m)) in *. set (x := tnorm (head_tok s ty a' m')) in *.
+  assert (Hp : pos < length T) by (apply nth_error_Some; rewrite Hn; discriminate).
+  (* the token at pos is not touched by the mark step *)
+  assert (Hnb : nth_error (DT db) pos = Some y).
+  { rewrite Eb. rewrite (remarkedT_nth s u rty f2 t2 T pos y H2 Lb Hn).
+    assert (E : (f2 <=? pos) && (pos <? t2) = false).
+    { destruct Hout as [Ho|Ho]; [assert ((f2 <=? pos) = false) by (apply Nat.leb_gt; lia)|assert ((pos <? t2) = false) by (apply Nat.ltb_ge; lia)];
+        rewrite H; auto using andb_false_r. }
+    rewrite E. reflexivity. }
+  rewrite Hnb in Hn2. inversion Hn2 as [Hsame]. unfold y in Hsame.
+  destruct (head_tok_norm_inj s _ _ _ _ _ _ Hsame) as (<- & Hat & Hms).
+  assert (Hx : tnorm (head_tok s ty a2' m2') = x).
+  { unfold x. eapply (node_update_norm s a pos ty at2 m2 cs2 a2' m2' at_ m cs a' m'); eauto. }
+  rewrite Hx in Eba.
+  (* the chain of open nodes is the same in T and in DT da: the rewritten token keeps its kind and node type *)
+  assert (Hxy : same_ctx_step x y).
+  { intros c. unfold x, y, head_tok. destruct (is_leaf_ty s ty); reflexivity. }
+  assert (HF : Forall2 same_ctx_step (DT da) T).
+  { rewrite Ea. pose proof (nth_split T pos y Hn) as ETy. set (A := firstn pos T) in *. set (S1 := skipn (S pos) T) in *.
+    rewrite ETy. apply Forall2_app; [apply Forall2_refl_same|].
+    apply Forall2_app; [constructor; [exact Hxy|constructor]|apply Forall2_refl_same]. }
+  apply nth_error_ext_eq. intros i.
+  assert (Lda : length (DT da) = length T).
+  { rewrite Ea, !app_length, firstn_length, skipn_length. cbn [length]. lia. }
+  assert (Ldb : length (DT db) = length T) by (rewrite Eb; apply remarkedT_length; assumption).
+  destruct (nth_error T i) as [t0|] eqn:Hi.
+  - assert (Hia : nth_error (DT da) i = Some (if i =? pos then x else t0)).
+    { rewrite Ea. destruct (i =? pos) eqn:Ei.
+      - apply Nat.eqb_eq in Ei. subst i. rewrite nth_error_app2 by (rewrite firstn_length; lia).
+        rewrite firstn_length, Nat.min_l, Nat.sub_diag by lia. reflexivity.
+      - apply Nat.eqb_neq in Ei. destruct (Nat.lt_ge_cases i pos) as [Hlt|Hge].
+        + rewrite nth_error_app1 by (rewrite firstn_length; lia). rewrite nth_firstn by lia. exact Hi.
+        + rewrite nth_error_app2 by (rewrite firstn_length; lia). rewrite firstn_length, Nat.min_l by lia.
+          destruct (i - pos) as [|k] eqn:Ek; [lia|]. cbn [app nth_error]. rewrite nth_skipn.
+          replace (S pos + k) with i by lia. exact Hi. }
+    assert (Hctx : ctxT rty (DT da) i = ctxT rty T i).
+    { unfold ctxT. apply ctx_after_same. apply Forall2_firstn. exact HF. }
+    assert (Lb' : t2 <= length (DT da)) by lia.
+    rewrite Eab, (remarkedT_nth s u rty f2 t2 (DT da) i _ H2 Lb' Hia), Hctx.
+    rewrite Eba. pose proof (remarkedT_nth s u rty f2 t2 T i t0 H2 Lb Hi) as Hib. rewrite <- Eb in Hib.
+    destruct (i =? pos) eqn:Ei.
+    + apply Nat.eqb_eq in Ei. subst i.
+      assert (E : (f2 <=? pos) && (pos <? t2) = false).
+      { destruct Hout as [Ho|Ho]; [assert ((f2 <=? pos) = false) by (apply Nat.leb_gt; lia)|assert ((pos <? t2) = false) by (apply Nat.ltb_ge; lia)];
+          rewrite H; auto using andb_false_r. }
+      rewrite E. rewrite nth_error_app2 by (rewrite firstn_length; lia). rewrite firstn_length, Nat.min_l, Nat.sub_diag by lia. reflexivity.
+    + apply Nat.eqb_neq in Ei. destruct (Nat.lt_ge_cases i pos) as [Hlt|Hge].
+      * rewrite nth_error_app1 by (rewrite firstn_length; lia). rewrite nth_firstn by lia. exact (eq_sym Hib).
+      * rewrite nth_error_app2 by (rewrite firstn_length; lia). rewrite firstn_length, Nat.min_l by lia.
+        destruct (i - pos) as [|k] eqn:Ek; [lia|]. cbn [app nth_error]. rewrite nth_skipn.
+        replace (S pos + k) with i by lia. exact (eq_sym Hib).
+  - apply nth_error_None in Hi.
+    assert (E1 : nth_error (DT dab) i = None) by (apply nth_error_None; rewrite Eab, remarkedT_length by lia; lia).
+    assert (E2 : nth_error (DT dba) i = None).
+    { apply nth_error_None. rewrite Eba, !app_length, firstn_length, skipn_length. cbn [length]. lia. }
+    rewrite E1, E2. reflexivity.
+Qed.
+
+(* ------------------------------------------------------------------ two node-level steps at different positions *)
+Lemma nth_splice1 {A} (L : list A) p x i : p < length L ->
+  nth_error (firstn p L ++ [x] ++ skipn (S p) L) i = if i =? p then Some x else nth_error L i.
+Proof.
+  intros Hp. destruct (i =? p) eqn:Ei.
+  - apply Nat.eqb_eq in Ei. subst i. rewrite nth_error_app2 by (rewrite firstn_length; lia).
+    rewrite firstn_length, Nat.min_l, Nat.sub_diag by lia. reflexivity.
+  - apply Nat.eqb_neq in Ei. destruct (Nat.lt_ge_cases i p) as [Hlt|Hge].
+    + rewrite nth_error_app1 by (rewrite firstn_length; lia). apply nth_firstn. lia.
+    + rewrite nth_error_app2 by (rewrite firstn_length; lia). rewrite firstn_length, Nat.min_l by lia.
+      destruct (i - p) as [|k] eqn:Ek; [lia|]. cbn [app nth_error]. rewrite nth_skipn. f_equal. lia.
+Qed.
+
+Theorem two_node_steps_commute a pa b pb doc da db dab dba :
+  V doc -> V da -> V db ->
+  is_node_step a = Some pa -> is_node_step b = Some pb -> pa <> pb ->
+  apply s a doc = ROk da -> apply s b doc = ROk db ->
+  apply s b da = ROk dab -> apply s a db = ROk dba ->
+  DT dab = DT dba.
+Proof.
+  intros Hd Hda Hdb Ha Hb Hne Aa Ab Aab Aba.
+  destruct (node_step_splice s a pa doc da Hd Ha Aa) as (tya & aa & ma & csa & aa' & ma' & _ & Eua & Hna & Ea).
+  destruct (node_step_splice s b pb doc db Hd Hb Ab) as (tyb & ab & mb & csb & ab' & mb' & _ & Eub & Hnb & Eb).
+  destruct (node_step_splice s b pb da dab Hda Hb Aab) as (tyb2 & ab2 & mb2 & csb2 & ab2' & mb2' & _ & Eub2 & Hnb2 & Eab).
+  destruct (node_step_splice s a pa db dba Hdb Ha Aba) as (tya2 & aa2 & ma2 & csa2 & aa2' & ma2' & _ & Eua2 & Hna2 & Eba).
+  set (T := DT doc) in *.
+  assert (Hpa : pa < length T) by (apply nth_error_Some; rewrite Hna; discriminate).
+  assert (Hpb : pb < length T) by (apply nth_error_Some; rewrite Hnb; discriminate).
+  (* b's token in da is b's token in doc, and the other way round *)
+  rewrite Ea, (nth_splice1 T pa _ pb Hpa) in Hnb2. assert (E1 : (pb =? pa) = false) by (apply Nat.eqb_neq; lia). rewrite E1, Hnb in Hnb2.
+  rewrite Eb, (nth_splice1 T pb _ pa Hpb) in Hna2. assert (E2 : (pa =? pb) = false) by (apply Nat.eqb_neq; lia). rewrite E2, Hna in Hna2.
+  inversion Hnb2 as [Sb]. inversion Hna2 as [Sa].
+  destruct (head_tok_norm_inj s _ _ _ _ _ _ Sb) as (<- & _ & _). destruct (head_tok_norm_inj s _ _ _ _ _ _ Sa) as (<- & _ & _).
+  assert (Xb : tnorm (head_tok s tyb ab2' mb2') = tnorm (head_tok s tyb ab' mb')).
+  { eapply (node_update_norm s b pb tyb ab2 mb2 csb2 ab2' mb2' ab mb csb ab' mb'); eauto. }
+  assert (Xa : tnorm (head_tok s tya aa2' ma2') = tnorm (head_tok s tya aa' ma')).
+  { eapply (node_update_norm s a pa tya aa2 ma2 csa2 aa2' ma2' aa ma csa aa' ma'); eauto. }
+  rewrite Xb in Eab. rewrite Xa in Eba.
+  set (xa := tnorm (head_tok s tya aa' ma')) in *. set (xb := tnorm (head_tok s tyb ab' mb')) in *.
+  assert (Lda : length (DT da) = length T) by (rewrite Ea, !app_length, firstn_length, skipn_length; cbn [length]; lia).
+  assert (Ldb : length (DT db) = length T) by (rewrite Eb, !app_length, firstn_length, skipn_length; cbn [length]; lia).
+  apply nth_error_ext_eq. intros i. rewrite Eab, Eba.
+  rewrite (nth_splice1 (DT da) pb xb i) by lia. rewrite (nth_splice1 (DT db) pa xa i) by lia.
+  rewrite Ea, Eb, (nth_splice1 T pa xa i Hpa), (nth_splice1 T pb xb i Hpb).
+  destruct (i =? pb) eqn:Eib; destruct (i =? pa) eqn:Eia; try reflexivity.
+  apply Nat.eqb_eq in Eib, Eia. lia.
 Qed.
 
 End WithSchema.
